@@ -18,9 +18,10 @@ import (
 // ---------------------------------------------------------------------
 
 type r5client struct {
-	env     *ienv
-	fn      *ssa.Function
-	observe func(s istate, in ssa.Instruction)
+	env        *ienv
+	fn         *ssa.Function
+	observe    func(s istate, in ssa.Instruction)
+	aliasDepth int
 }
 
 func (k *r5client) Key(s istate) string { return s.key() }
@@ -142,12 +143,48 @@ func (k *r5client) Branch(s istate, cond ssa.Value, outcome bool) (istate, bool)
 	if cv, ok := constBool(cond); ok && cv != outcome {
 		return s, false
 	}
-	if alias, ok := s.eq[id]; ok && alias != cond {
+	if alias, ok := s.eq[id]; ok && alias != cond && k.aliasDepth < 8 {
+		// loop-carried boolean phis can alias each other in a cycle: bounded
+		k.aliasDepth++
 		ns, feas := k.Branch(s, alias, outcome)
+		k.aliasDepth--
 		if !feas {
 			return s, false
 		}
 		s = ns
+	}
+	// err == nil for the error of a validating helper: what the helper guarantees about its integer arguments
+	// on its nil-returning paths holds for the arguments here (checkLen(L) == nil  =>  0 <= L <= maxLen)
+	if x, trueMeansNil, ok := nilTest(cond); ok && isErrorType(x.Type()) && outcome == trueMeansNil {
+		if call, ok := x.(*ssa.Call); ok {
+			if sc := call.Common().StaticCallee(); sc != nil && sc.Blocks != nil && core.FuncPkg(sc) == core.FuncPkg(k.fn) {
+				for idx, iv := range nilSummary(sc, k.env.sizes, 0) {
+					if idx >= len(call.Common().Args) {
+						continue
+					}
+					arg := call.Common().Args[idx]
+					cur, ok := k.env.get(s, arg)
+					full, okf := typeRange(arg.Type(), k.env.sizes)
+					if !ok || !okf {
+						continue
+					}
+					lo, hi := cur.lo, cur.hi
+					if iv.lo.Cmp(lo) > 0 {
+						lo = iv.lo
+					}
+					if iv.hi.Cmp(hi) < 0 {
+						hi = iv.hi
+					}
+					if lo.Cmp(hi) > 0 {
+						return s, false
+					}
+					if _, isC := arg.(*ssa.Const); !isC {
+						s = s.set(k.env.num.id(arg), ival{lo, hi}, full)
+						s = k.refineThroughConvert(s, arg, ival{lo, hi})
+					}
+				}
+			}
+		}
 	}
 	if bo, ok := cond.(*ssa.BinOp); ok {
 		switch bo.Op {
@@ -240,7 +277,7 @@ func isBigEndianLoad(v ssa.Value) bool {
 		return false
 	}
 	sc := c.Common().StaticCallee()
-	return sc != nil && funcPkgPath(sc) == "encoding/binary" && strings.HasPrefix(sc.Name(), "Uint")
+	return sc != nil && funcPkgPath(sc) == "encoding/binary" && strings.HasPrefix(core.FuncName(sc), "Uint")
 }
 
 // usedOnlyAsWireStore: every use of the conversion is an argument of
@@ -258,10 +295,10 @@ func usedOnlyAsWireStore(cv *ssa.Convert) bool {
 			if sc == nil {
 				return false
 			}
-			if funcPkgPath(sc) == "encoding/binary" && strings.HasPrefix(sc.Name(), "PutUint") {
+			if funcPkgPath(sc) == "encoding/binary" && strings.HasPrefix(core.FuncName(sc), "PutUint") {
 				continue
 			}
-			if sc.Name() == "writeByte" {
+			if core.FuncName(sc) == "writeByte" {
 				continue
 			}
 			return false
@@ -337,7 +374,7 @@ func R5(pkgs ...string) func(p *core.Prog) *core.Result {
 				continue
 			}
 			hasPush := false
-			if f.Name() == "pushLen" || (f.Signature.Recv() != nil && namedOf(f.Signature.Recv().Type()) != nil && namedOf(f.Signature.Recv().Type()).Obj().Name() == "lengthStack") {
+			if core.FuncName(f) == "pushLen" || (f.Signature.Recv() != nil && namedOf(f.Signature.Recv().Type()) != nil && namedOf(f.Signature.Recv().Type()).Obj().Name() == "lengthStack") {
 				continue // the wrapper / the stack itself: their callers are the push sites
 			}
 			for _, b := range f.Blocks {
@@ -466,7 +503,7 @@ func R5(pkgs ...string) func(p *core.Prog) *core.Result {
 					}
 				case *ssa.BinOp:
 					// digit accumulation on the text->number path: an unsigned add/mul that can wrap needs a wrap check
-					if pk.Name() == "json" && strings.HasPrefix(f.Name(), "parse") && (x.Op == token.ADD || x.Op == token.MUL) {
+					if pk.Name() == "json" && strings.HasPrefix(core.FuncName(f), "parse") && (x.Op == token.ADD || x.Op == token.MUL) {
 						if bits, signed, ok := intTypeInfo(x.Type(), sizes); ok && !signed && bits == 64 && env.mayWrap(s, x) {
 							wraps[x] = true
 						}
@@ -518,7 +555,7 @@ func R5(pkgs ...string) func(p *core.Prog) *core.Result {
 				if cc.IsInvoke() && cc.Method.Pkg() != nil && cc.Method.Pkg().Path() == core.ModPath && (isNumEvent(cc.Method.Name())) {
 					isSink = true
 				}
-				if sc := cc.StaticCallee(); sc != nil && sc.Name() == "push" && sc.Signature.Recv() != nil && namedOf(sc.Signature.Recv().Type()) != nil && namedOf(sc.Signature.Recv().Type()).Obj().Name() == "lengthStack" {
+				if sc := cc.StaticCallee(); sc != nil && core.FuncName(sc) == "push" && sc.Signature.Recv() != nil && namedOf(sc.Signature.Recv().Type()) != nil && namedOf(sc.Signature.Recv().Type()).Obj().Name() == "lengthStack" {
 					isSink = true
 				}
 				if !isSink || len(cc.Args) == 0 {
@@ -543,7 +580,7 @@ func R5(pkgs ...string) func(p *core.Prog) *core.Result {
 			}
 			// NEG-SIGN: the decoder of CBOR major type 1 (negative integers, -1-n) only ever reports negative numbers
 			negHi := map[ssa.Instruction]*big.Int{}
-			if pk.Name() == "cborl" && f.Name() == "stepNeg" {
+			if pk.Name() == "cborl" && core.FuncName(f) == "stepNeg" {
 				prev2 := k.observe
 				k.observe = func(s istate, ins ssa.Instruction) {
 					prev2(s, ins)
@@ -562,7 +599,7 @@ func R5(pkgs ...string) func(p *core.Prog) *core.Result {
 			}
 			_, capped := WalkPaths[istate](k, f.Blocks[0], 0, istate{}, 400000, nil)
 			fkey := core.FuncKey(f)
-			if pk.Name() == "cborl" && f.Name() == "stepNeg" {
+			if pk.Name() == "cborl" && core.FuncName(f) == "stepNeg" {
 				var il []ssa.Instruction
 				for in := range negHi {
 					il = append(il, in)
@@ -636,7 +673,7 @@ func R5(pkgs ...string) func(p *core.Prog) *core.Result {
 					// one wrap window: a uniform, invertible shift; followed through by the interval domain
 					r.Ok(".CONV", pos, fmt.Sprintf("%s: %s with operand in %s lies in one wrap window (invertible reinterpretation, followed exactly)", fkey, desc, o.union))
 					continue
-				case pk.Name() == "ubjson" && f.Name() == "uint64" && narrowing || pk.Name() == "ubjson" && f.Name() == "uint64" && sameWidthSign:
+				case pk.Name() == "ubjson" && core.FuncName(f) == "uint64" && narrowing || pk.Name() == "ubjson" && core.FuncName(f) == "uint64" && sameWidthSign:
 					if why, ok := ubjsonUint64Premise(p, f); ok {
 						r.Ok(".CONV", pos, fkey+": "+desc+" is selected by the marker argument; premise checked: "+why)
 					} else {
@@ -803,7 +840,7 @@ func isDecodeOrLengthSink(p *core.Prog, cv *ssa.Convert) bool {
 					found = true
 				}
 				if sc := cc.StaticCallee(); sc != nil {
-					switch sc.Name() {
+					switch core.FuncName(sc) {
 					case "push", "pushLen", "collect":
 						found = true
 					}
@@ -872,7 +909,7 @@ func markerDerived(t ssa.Value, seen map[ssa.Value]bool) bool {
 		if sc == nil {
 			return false
 		}
-		switch sc.Name() {
+		switch core.FuncName(sc) {
 		case "uintType":
 			return true
 		case "maxNumType":
@@ -1024,11 +1061,11 @@ func isLengthPush(c *ssa.Call) bool {
 	if sc == nil || len(c.Common().Args) < 2 {
 		return false
 	}
-	if sc.Name() == "push" && sc.Signature.Recv() != nil {
+	if core.FuncName(sc) == "push" && sc.Signature.Recv() != nil {
 		n := namedOf(sc.Signature.Recv().Type())
 		return n != nil && n.Obj().Name() == "lengthStack"
 	}
-	return sc.Name() == "pushLen"
+	return core.FuncName(sc) == "pushLen"
 }
 
 // acceptedReinterpretation: the frozen list of same-width sign
@@ -1094,4 +1131,56 @@ func acceptedReinterpretation(p *core.Prog, f *ssa.Function, cv *ssa.Convert) (s
 		return "the helper has no caller (CBOR integers are not two's complement; a call would have to be judged)", true
 	}
 	return "", false
+}
+
+// nilSummary: for a function with a single error result, the interval each
+// integer parameter lies in on the paths that return a nil error (hull over
+// those paths). Parameters about which nothing is learnt are absent.
+var nilSummaryMemo = map[*ssa.Function]map[int]ival{}
+
+func nilSummary(f *ssa.Function, sizes types.Sizes, depth int) map[int]ival {
+	if m, ok := nilSummaryMemo[f]; ok {
+		return m
+	}
+	nilSummaryMemo[f] = nil
+	if depth > 2 || f.Signature.Results().Len() != 1 || !isErrorType(f.Signature.Results().At(0).Type()) {
+		return nil
+	}
+	env := &ienv{num: newNumbering(), sizes: sizes}
+	k := &r5client{env: env, fn: f}
+	hulls := map[int]*ival{}
+	k.observe = func(s istate, in ssa.Instruction) {
+		ret, ok := in.(*ssa.Return)
+		if !ok || definitelyNonNilError(ret.Results[0]) {
+			return
+		}
+		for i, prm := range f.Params {
+			if _, ok := typeRange(prm.Type(), sizes); !ok {
+				continue
+			}
+			iv, ok := env.get(s, prm)
+			if !ok {
+				continue
+			}
+			if h := hulls[i]; h == nil {
+				c := iv
+				hulls[i] = &c
+			} else {
+				x := hull(*h, iv)
+				hulls[i] = &x
+			}
+		}
+	}
+	if _, capped := WalkPaths[istate](k, f.Blocks[0], 0, istate{}, 100000, nil); capped {
+		return nil
+	}
+	out := map[int]ival{}
+	for i, h := range hulls {
+		full, _ := typeRange(f.Params[i].Type(), sizes)
+		if h.within(full) && !(h.lo.Cmp(full.lo) == 0 && h.hi.Cmp(full.hi) == 0) {
+			out[i] = *h
+		}
+	}
+	nilSummaryMemo[f] = out
+	return out
 }
